@@ -44,6 +44,13 @@ func vhRun(q *gojq.Query, v any) gojq.Iter {
 		return &vhIter{vals: []any{map[string]any{"a": data["v"]}}}
 	case "{a: .kind}":
 		return &vhIter{vals: []any{map[string]any{"a": data["kind"]}}}
+	case `.v = "patched"`:
+		out := map[string]any{}
+		for k, x := range data {
+			out[k] = x
+		}
+		out["v"] = "patched"
+		return &vhIter{vals: []any{out}}
 	case ".v, .w":
 		return &vhIter{vals: []any{data["v"], data["w"]}}
 	case "error(\"boom\")":
